@@ -20,6 +20,7 @@ import IcyVerif.Drv.Palette
 import IcyVerif.Drv.Rect
 import IcyVerif.Drv.Rip
 import IcyVerif.Drv.Ripc
+import IcyVerif.Drv.Ript
 import IcyVerif.Drv.Rows
 import IcyVerif.Drv.Sauce
 import IcyVerif.Drv.SauceLoad
@@ -60,6 +61,7 @@ def dispatch (line : String) : String :=
   | "rect" :: rest => Rect.handle rest
   | "rip" :: rest => Rip.handle rest
   | "ripc" :: rest => Ripc.handle rest
+  | "ript" :: rest => Ript.handle rest
   | "rows" :: rest => Rows.handle rest
   | "sauce" :: rest => Sauce.handle rest
   | "sauceload" :: rest => SauceLoad.handle rest
